@@ -12,7 +12,7 @@ import os
 import re
 
 from vf.extract import extract_item
-from vf.unit import Unit
+from vf.unit import Unit, _find_all
 from units.air import PRELUDE as AIR_PRELUDE
 
 SPEC = r'''
@@ -259,6 +259,7 @@ def build():
     e.rewrite_re('R11', r'\bext_mul_lane\(', 'self.ext_mul_lane(', min_count=8)
     e.rewrite_re('R11', r'AB::Expr::ZERO', 'R::zero()', min_count=1)
     e.rewrite_re('R11', r'AB::Expr::ONE', 'R::one()', min_count=1)
+    e.rewrite_re('R11', r'\bAB::(Var|Expr)\b(?!::)', 'R', min_count=0)
     e.rewrite_re('R6', r'(\w+) \+= ([^;]+);', r'\1 = \1 + \2;', min_count=3)
     e.rewrite_re('R5', r'for kk in (\d)\.\.=k_max \{', r'for kk in \1..k_max + 1 {', min_count=4)
 
@@ -369,8 +370,10 @@ def build():
     e.after('let c_s = &local[off_s + D..off_s + 2 * D];', 'proof { assert(iv(int_curr@) =~= r.iv_(t_)); assert(iv(a_s@) =~= r.av(s as int)); assert(iv(c_s@) =~= r.cv(s as int)); }')
     e.before('let off_sp1 = ac_base + 2 * s * D;', 'proof { lemma_ac(r, s as int + 1); }')
     e.after('let c_sp1 = &local[off_sp1 + D..off_sp1 + 2 * D];', 'proof { assert(iv(a_sp1@) =~= r.av(s as int + 1)); assert(iv(c_sp1@) =~= r.cv(s as int + 1)); }')
-    e.before('let int_next = &local', 'proof { lemma_slot(r, t_ + 1); }')
-    e.after('let int_next = &local[extra_main + (curr_int_slot + 1) * D ..extra_main + (curr_int_slot + 2) * D];', 'proof { assert(iv(int_next@) =~= r.iv_(t_ + 1)); }')
+    if 'let int_next = &local' in e.body:
+        e.before('let int_next = &local', 'proof { lemma_slot(r, t_ + 1); }')
+    if len(_find_all('let int_next = &local[extra_main + (curr_int_slot + 1) * D ..extra_main + (curr_int_slot + 2) * D];', e.body)) > 0:
+        e.after('let int_next = &local[extra_main + (curr_int_slot + 1) * D ..extra_main + (curr_int_slot + 2) * D];', 'proof { assert(iv(int_next@) =~= r.iv_(t_ + 1)); }')
     return finish(u, e)
 
 
